@@ -55,3 +55,135 @@ def string_standin(ctx):
 
     env["SigmaString"] = Str
     return Str, CasedStr, Placeholder, sc, env
+
+
+class StandinSigmaError(Exception):
+    pass
+
+
+StandinSigmaError.__name__ = "SigmaError"
+
+
+def run_per_rule_converter(ctx, fn: str, fin_sub: bool = False, referenced: bool = False, output: bool = True, fail_at: str | None = None,
+                           collect: bool = False, me=None, fail_with: BaseException | None = None):
+    """Backend.convert_rule / convert_correlation_rule interpreted (sa.tabulate, Proxy) on a stand-in rule with two queries.
+    fail_at ∈ {None, 'pipeline', 'convert', 'finish', 'finalize'} makes that stage raise a (stand-in) SigmaError.
+    Returns a namespace: ret, raised, stored, finalised_calls, errors, rule, me, error (the injected error object)."""
+    import types as _types
+    from ..tabulate import Proxy, call_method, Raised
+    from ..prog import AnalysisError
+    prog = ctx.prog
+    B = "sigma.conversion.base.Backend"
+    SigmaError = StandinSigmaError
+
+    class SigmaConversionError(SigmaError):
+        def __init__(self, *a, **k): super().__init__(*[str(x) for x in a])
+
+    class SigmaExtendedCorrelationCondition:
+        pass
+
+    class _Type:
+        def __init__(self, n): self.n = n
+        def __repr__(self): return self.n
+
+    names = ("EVENT_COUNT", "VALUE_COUNT", "VALUE_SUM", "VALUE_AVG", "VALUE_PERCENTILE", "VALUE_MEDIAN", "TEMPORAL", "TEMPORAL_ORDERED")
+    SigmaCorrelationType = _types.SimpleNamespace(**{n_: _Type(n_) for n_ in names})
+    error = fail_with if fail_with is not None else SigmaError("injected failure")
+    stored: list = []
+    finalised_calls: list = []
+
+    def stage(name, value):
+        if fail_at == name:
+            raise error
+        return value
+
+    conds = [_types.SimpleNamespace(parsed="c0"), _types.SimpleNamespace(parsed="c1")]
+    class _Rule(_types.SimpleNamespace):
+        """rules compare by content (dataclasses): two stand-in rules are equal"""
+        def __eq__(self, o): return isinstance(o, _types.SimpleNamespace) and getattr(o, "title", None) == self.title
+        def __hash__(self): return 1
+
+    rule = _Rule(_backreferences=[object()] if referenced else [], _output=output, source=None, generate=True, errors=[], rules=[], type=SigmaCorrelationType.EVENT_COUNT, condition=None, title="t",
+                                  detection=_types.SimpleNamespace(parsed_condition=conds),
+                                  set_conversion_result=lambda q: stored.append(list(q)), set_conversion_states=lambda st: None,
+                                  get_conversion_result=lambda: list(stored[-1]), get_conversion_states=lambda: [])
+
+    def finalize_query(rule_, query, index, state, fmt):
+        finalised_calls.append(query)
+        return stage("finalize", f"FINAL({query})")
+
+    pipeline = _types.SimpleNamespace(apply=lambda rule_: stage("pipeline", None), state={})
+    corr = lambda rule_, fmt, method: stage("convert", ["c0", "c1"])  # noqa: E731
+    env = {"SigmaError": SigmaError, "SigmaConversionError": SigmaConversionError, "SigmaCorrelationType": SigmaCorrelationType,
+           "SigmaExtendedCorrelationCondition": SigmaExtendedCorrelationCondition, "NotImplementedError": NotImplementedError, "Exception": Exception}
+    IK = {"behaviours": (SigmaError,) + ((type(fail_with),) if fail_with is not None else ()), "max_steps": 8000}
+    if me is None:
+        attrs = {"last_processing_pipeline_format": "default", "default_format": "default", "collect_errors": collect, "errors": [],
+                 "correlation_methods": {"default": "d"}, "default_correlation_method": "default", "name": "b", "init_processing_pipeline": lambda fmt=None: None}
+        me = Proxy(prog, B, env, attrs, interp_kwargs=IK)
+    me.last_processing_pipeline = pipeline
+    me.finalize_correlation_subqueries = fin_sub
+    me.convert_condition = lambda c, st: stage("convert", c)
+    me.finish_query = lambda rule_, q, st: stage("finish", f"fin({q})")
+    me.finalize_query = finalize_query
+    for cm in ("event_count", "value_count", "value_sum", "value_avg", "value_percentile", "value_median", "temporal", "temporal_ordered", "extended_temporal", "extended_temporal_ordered"):
+        setattr(me, f"convert_correlation_{cm}_rule", corr)
+    out = _types.SimpleNamespace(ret=None, raised=None, stored=stored, finalised_calls=finalised_calls, rule=rule, me=me, error=error, errors=None)
+    try:
+        out.ret = call_method(prog, B, fn, me, env, rule, interp_kwargs=IK) if fn == "convert_rule" else call_method(prog, B, fn, me, env, rule, None, None, interp_kwargs=IK)
+    except Raised as ex:
+        out.raised = ex
+    except AnalysisError as ex:
+        # a run without injected failure has shown that every name of the body has a stand-in: a name that is missing when
+        # a stage fails is a local that the failing path leaves unbound (UnboundLocalError at run time)
+        if fail_at is not None and "NameError" in str(ex):
+            out.raised = Raised(f"UnboundLocalError ({ex})")
+        else:
+            raise
+    out.errors = me.errors
+    return out
+
+
+def run_backend_convert(ctx, per_rule=None, fmt=None, reused=False):
+    """Backend.convert interpreted (sa.tabulate, Proxy) on a stand-in collection of plain and correlation rules. The
+    per-rule converters, pipeline initialisation, reference resolution and finalisation are recording stand-ins.
+    Returns a namespace: ret, raised, trace (the calls in order), rules."""
+    import types as _types
+    from ..tabulate import Proxy, call_method, Raised
+    prog = ctx.prog
+    B = "sigma.conversion.base.Backend"
+
+    class SigmaRule:
+        def __init__(self, n):
+            self.n, self._output, self.errors, self._backreferences = n, n != "r2", (["e"] if n == "empty" else []), []
+
+    class SigmaCorrelationRule:
+        def __init__(self, n):
+            self.n, self._output, self.errors, self._backreferences = n, True, ["e"], []
+
+    trace: list = []
+    rules = [SigmaRule("r1"), SigmaCorrelationRule("c1"), SigmaRule("r2"), SigmaRule("empty"), SigmaRule("r1")]
+    per_rule = per_rule or (lambda rule: [] if rule.n == "empty" else [f"{rule.n}-a", "same"])
+
+    def convert_rule(rule, output_format=None, callback=None):
+        trace.append(("convert_rule", rule.n, output_format))
+        return per_rule(rule)
+
+    def convert_correlation_rule(rule, output_format=None, method=None, callback=None):
+        trace.append(("convert_correlation_rule", rule.n, output_format))
+        return per_rule(rule)
+
+    coll = _types.SimpleNamespace(rules=rules, resolve_rule_references=lambda: trace.append(("resolve",)))
+    attrs = {"default_format": "default", "init_processing_pipeline": lambda f=None: trace.append(("init", f)), "convert_rule": convert_rule,
+             "convert_correlation_rule": convert_correlation_rule, "finalize": lambda queries, f: (trace.append(("finalize", list(queries), f)), ("FINAL", list(queries)))[1]}
+    if reused:  # a backend object that has converted before (another format / another user pipeline)
+        attrs.update({"last_processing_pipeline": object(), "last_processing_pipeline_format": "default"})
+    env = {"SigmaRule": SigmaRule, "SigmaCorrelationRule": SigmaCorrelationRule}
+    IK = {"max_steps": 8000}
+    me = Proxy(prog, B, env, attrs, interp_kwargs=IK)
+    out = _types.SimpleNamespace(ret=None, raised=None, trace=trace, rules=rules)
+    try:
+        out.ret = call_method(prog, B, "convert", me, env, coll, fmt, interp_kwargs=IK)
+    except Raised as ex:
+        out.raised = ex
+    return out
